@@ -110,7 +110,7 @@ func sigOf(bad, text string) string {
 }
 
 func run(c *core.Ctx) {
-	c.R.Rule = "case = a text: (a) every token sequence over each alphabet explored by viable-prefix DFS (a prefix is extended while the model OR the library still considers it viable), (a') every sequence up to 4 tokens over the full alphabet without pruning, (e) every text within two token edits (delete / replace / insert / adjacent swap over the full token alphabet; the second edit within a window after the first) of 18 long grammar-derived sentences that span all productions, (b) every byte string up to the bound over a 25-byte alphabet (quotes, backslash, #, CR, LF, comma, dot, digits, e, u, braces, the bytes of e-acute and of the BOM, tab, BEL, NUL) alone and inside `{ }`; non-trivial = accepted by library or model; distinct texts"
+	c.R.Rule = "case = a text: (a) every token sequence over each alphabet explored by viable-prefix DFS (a prefix is extended while the model OR the library still considers it viable), (a') every sequence up to 4 tokens over the full alphabet without pruning, (e) every text within two token edits (delete / replace / insert / adjacent swap over the full token alphabet; the second edit within a window after the first) of 18 long grammar-derived sentences that span all productions, (b) every byte string up to the bound over a 24-byte alphabet (quotes, backslash, #, CR, LF, comma, dot, digits, e, u, braces, the bytes of e-acute and of the BOM, tab, BEL) alone and inside `{ }`; non-trivial = accepted by library or model; distinct texts"
 	c.R.Assumptions = []string{"M-syntax (verif/h/msyntax) is the target grammar of DESIGN.md appendix A", "tokens are separated by single spaces in (a); layouts are varied by C18", "Go toolchain"}
 	qi := 0
 	if !c.Quick() {
@@ -195,7 +195,9 @@ func run(c *core.Ctx) {
 		wrapped := append(append([]byte("{ "), text...), " }"...)
 		visitText("bytes-in-braces", nil, wrapped)
 		// also as the content of a string argument and after a field
-		visitText("bytes-after-field", nil, append(append([]byte("{ a "), text...), " b }"...))
+		if len(text) < maxBytes || !c.Quick() {
+			visitText("bytes-after-field", nil, append(append([]byte("{ a "), text...), " b }"...))
+		}
 	})
 	// (b') character units: multi-byte characters as single units (valid UTF-8 only)
 	maxUnits := c.Pick(5, 6)
